@@ -60,12 +60,12 @@ pub struct RScenario {
     pub avail: usize,
     pub max_len: Option<u32>,
     /// construct the reader with `with_buffer` and a recycled buffer (stale content, spare capacity)
-    pub dirty: bool,
+    pub ctor: u8,
 }
 
 impl RScenario {
     fn json(&self) -> serde_json::Value {
-        json!({"side": "reader", "frames": describe(&self.frames), "stream_hex": refmodel::hex(&wire(&self.frames)), "bytes_before_end_of_stream": self.avail, "max_len": self.max_len, "with_buffer": self.dirty})
+        json!({"side": "reader", "frames": describe(&self.frames), "stream_hex": refmodel::hex(&wire(&self.frames)), "bytes_before_end_of_stream": self.avail, "max_len": self.max_len, "constructor": self.ctor})
     }
 }
 
@@ -73,7 +73,7 @@ pub fn run_reader(sc: &RScenario, max_interrupts: u32, ch: SharedChooser, out: &
     let mut data = wire(&sc.frames);
     data.truncate(sc.avail);
     let st = Rc::new(RefCell::new(SrcState { data, pos: 0, interrupts: 0, max_interrupts, reads: 0, ch }));
-    let mut reader = if sc.dirty { Reader::with_buffer(Src(st.clone()), dirty_buffer()) } else { Reader::new(Src(st.clone())) };
+    let mut reader = if sc.ctor != 0 { Reader::with_buffer(Src(st.clone()), dirty_buffer(sc.ctor)) } else { Reader::new(Src(st.clone())) };
     let max_len = match sc.max_len {
         Some(m) => {
             reader.set_max_len(m);
@@ -85,6 +85,10 @@ pub fn run_reader(sc: &RScenario, max_interrupts: u32, ch: SharedChooser, out: &
     let mut results = Vec::new();
     for want in expected.values.iter().chain(std::iter::once(&expected.terminal)) {
         mcx::slot::beat();
+        if sc.ctor != 0 {
+            reader.set_max_len(0);
+            reader.set_max_len(max_len as u32);
+        }
         let (r, peak) = mcx::alloc::measured(|| classify_read(reader.read::<Vec<u8>>()));
         results.push(r.clone());
         if &r != want {
@@ -149,12 +153,12 @@ impl io::Write for Sink {
 pub struct WScenario {
     pub values: Vec<Val>,
     pub max_len: Option<u32>,
-    pub dirty: bool,
+    pub ctor: u8,
 }
 
 impl WScenario {
     fn json(&self) -> serde_json::Value {
-        json!({"side": "writer", "values": self.values.iter().map(|v| format!("{:?}", v)).collect::<Vec<_>>(), "max_len": self.max_len, "with_buffer": self.dirty})
+        json!({"side": "writer", "values": self.values.iter().map(|v| format!("{:?}", v)).collect::<Vec<_>>(), "max_len": self.max_len, "constructor": self.ctor})
     }
 }
 
@@ -167,7 +171,7 @@ fn val_payload(v: &Val) -> Option<Vec<u8>> {
 
 pub fn run_writer(sc: &WScenario, max_interrupts: u32, ch: SharedChooser, out: &mut Option<usize>) -> Result<(), String> {
     let st = Rc::new(RefCell::new(SinkState { coarse: sc.values.iter().any(|v| matches!(v, Val::Arr(a) if a.len() > 24)), received: Vec::new(), interrupts: 0, max_interrupts, writes: 0, ch }));
-    let mut writer = if sc.dirty { Writer::with_buffer(Sink(st.clone()), dirty_buffer()) } else { Writer::new(Sink(st.clone())) };
+    let mut writer = if sc.ctor != 0 { Writer::with_buffer(Sink(st.clone()), dirty_buffer(sc.ctor)) } else { Writer::new(Sink(st.clone())) };
     let max_len = match sc.max_len {
         Some(m) => {
             writer.set_max_len(m);
@@ -179,6 +183,10 @@ pub fn run_writer(sc: &WScenario, max_interrupts: u32, ch: SharedChooser, out: &
     for (i, v) in sc.values.iter().enumerate() {
         mcx::slot::beat();
         let payload = val_payload(v);
+        if sc.ctor != 0 {
+            writer.set_max_len(0);
+            writer.set_max_len(max_len as u32);
+        }
         let r = writer.write(v.clone());
         match (&payload, r) {
             (Some(p), Ok(n)) if p.len() <= max_len => {
@@ -236,9 +244,13 @@ pub fn reader_scenarios(tier: Tier) -> (Vec<RScenario>, u32, String) {
                 if avail < total && !(ml.is_none() || ml == Some(largest)) {
                     continue;
                 }
-                out.push(RScenario { frames: fs.clone(), avail, max_len: ml, dirty: false });
+                out.push(RScenario { frames: fs.clone(), avail, max_len: ml, ctor: 0 });
                 if ml.is_none() && avail == total {
-                    out.push(RScenario { frames: fs.clone(), avail, max_len: ml, dirty: true });
+                    out.push(RScenario { frames: fs.clone(), avail, max_len: ml, ctor: 1 });
+                    if fs.len() <= 2 {
+                        out.push(RScenario { frames: fs.clone(), avail, max_len: ml, ctor: 2 });
+                        out.push(RScenario { frames: fs.clone(), avail, max_len: ml, ctor: 3 });
+                    }
                 }
             }
         }
@@ -247,7 +259,13 @@ pub fn reader_scenarios(tier: Tier) -> (Vec<RScenario>, u32, String) {
     for big in large_frames() {
         let l = big.payload.len();
         let huge = l > 1000;
-        if huge && tier == Tier::Quick && l != 65536 {
+        if huge && tier == Tier::Quick && l != 65536 && l < 500_000 {
+            continue;
+        }
+        if l >= 500_000 {
+            // the default maximum (512 KiB): a frame of exactly that size is read, one byte more is refused
+            let fs = vec![big.clone()];
+            out.push(RScenario { frames: fs.clone(), avail: wire(&fs).len(), max_len: None, ctor: 0 });
             continue;
         }
         let seqs = if huge { vec![vec![big.clone()]] } else { vec![vec![big.clone()], vec![kinds[0].clone(), big.clone(), kinds[2].clone()]] };
@@ -256,10 +274,10 @@ pub fn reader_scenarios(tier: Tier) -> (Vec<RScenario>, u32, String) {
             let lead = if fs.len() == 1 { 0 } else { 4 + kinds[0].payload.len() };
             let cuts = if huge { vec![total, total - 1, lead + 4 + l / 2] } else { vec![total, total - 1, lead + 4 + l, lead + 4 + l - 1, lead + 4 + l / 2, lead + 4, lead + 3] };
             for avail in cuts {
-                out.push(RScenario { frames: fs.clone(), avail, max_len: None, dirty: false });
+                out.push(RScenario { frames: fs.clone(), avail, max_len: None, ctor: 0 });
             }
-            out.push(RScenario { frames: fs.clone(), avail: total, max_len: Some(l as u32), dirty: true });
-            out.push(RScenario { frames: fs.clone(), avail: total, max_len: Some(l as u32 - 1), dirty: false });
+            out.push(RScenario { frames: fs.clone(), avail: total, max_len: Some(l as u32), ctor: 1 });
+            out.push(RScenario { frames: fs.clone(), avail: total, max_len: Some(l as u32 - 1), ctor: 0 });
         }
     }
     for h in hostile_frames() {
@@ -267,8 +285,8 @@ pub fn reader_scenarios(tier: Tier) -> (Vec<RScenario>, u32, String) {
             let mut fs = lead.clone();
             fs.push(h.clone());
             let total = wire(&fs).len();
-            out.push(RScenario { frames: fs.clone(), avail: total, max_len: None, dirty: false });
-            out.push(RScenario { frames: fs.clone(), avail: total, max_len: Some(8), dirty: true });
+            out.push(RScenario { frames: fs.clone(), avail: total, max_len: None, ctor: 0 });
+            out.push(RScenario { frames: fs.clone(), avail: total, max_len: Some(8), ctor: 1 });
         }
     }
     out.sort_by_key(|s| std::cmp::Reverse(s.avail));
@@ -302,22 +320,28 @@ pub fn writer_scenarios(tier: Tier) -> (Vec<WScenario>, u32, String) {
     let mut out = Vec::new();
     for s in all {
         for ml in [None, Some(1u32), Some(2), Some(3)] {
-            out.push(WScenario { values: s.clone(), max_len: ml, dirty: false });
+            out.push(WScenario { values: s.clone(), max_len: ml, ctor: 0 });
         }
-        out.push(WScenario { values: s.clone(), max_len: None, dirty: true });
+        out.push(WScenario { values: s.clone(), max_len: None, ctor: 1 });
+        out.push(WScenario { values: s.clone(), max_len: None, ctor: 2 });
+        out.push(WScenario { values: s.clone(), max_len: None, ctor: 3 });
     }
     for big in large_frames() {
         let v = Val::Arr(big.value.clone().unwrap());
         let l = big.payload.len() as u32;
         let huge = l > 1000;
-        if huge && tier == Tier::Quick && l != 65536 {
+        if huge && tier == Tier::Quick && l != 65536 && l < 500_000 {
+            continue;
+        }
+        if l >= 500_000 {
+            out.push(WScenario { values: vec![v.clone(), Val::Arr(vec![5])], max_len: None, ctor: 0 });
             continue;
         }
         let seqs = if huge { vec![vec![v.clone()], vec![v.clone(), Val::FailEnc, Val::Arr(vec![5])]] } else { vec![vec![v.clone()], vec![Val::Arr(vec![5]), v.clone(), Val::Arr(vec![1, 2])], vec![v.clone(), Val::FailEnc, v.clone()]] };
         for seq in seqs {
-            out.push(WScenario { values: seq.clone(), max_len: None, dirty: false });
-            out.push(WScenario { values: seq.clone(), max_len: Some(l), dirty: true });
-            out.push(WScenario { values: seq.clone(), max_len: Some(l - 1), dirty: false });
+            out.push(WScenario { values: seq.clone(), max_len: None, ctor: 0 });
+            out.push(WScenario { values: seq.clone(), max_len: Some(l), ctor: 1 });
+            out.push(WScenario { values: seq.clone(), max_len: Some(l - 1), ctor: 0 });
         }
     }
     let bound = format!(
@@ -424,7 +448,7 @@ pub fn replay_case(case: &serde_json::Value) -> Result<(), String> {
         let names: Vec<String> = sc["frames"].as_array().unwrap().iter().map(|x| x.as_str().unwrap().to_string()).collect();
         let all: Vec<Frame> = frame_kinds().into_iter().chain(hostile_frames()).chain(large_frames()).collect();
         let frames: Vec<Frame> = names.iter().map(|n| all.iter().find(|f| f.name == n).unwrap().clone()).collect();
-        let scen = RScenario { frames, avail: sc["bytes_before_end_of_stream"].as_u64().unwrap() as usize, max_len: sc["max_len"].as_u64().map(|x| x as u32), dirty: sc["with_buffer"].as_bool().unwrap_or(false) };
+        let scen = RScenario { frames, avail: sc["bytes_before_end_of_stream"].as_u64().unwrap() as usize, max_len: sc["max_len"].as_u64().map(|x| x as u32), ctor: sc["constructor"].as_u64().unwrap_or(0) as u8 };
         let mut o = None;
         let (labels, res) = replay(&choices, |ch| run_reader(&scen, ints, ch, &mut o));
         for l in labels {
